@@ -43,7 +43,13 @@ pub fn number_64(i: &[u8]) -> IResult<&[u8], u64> {
 //                    ; these two regardless of order.
 //                    ; seq-number is a nz-number
 pub fn sequence_range(i: &[u8]) -> IResult<&[u8], std::ops::RangeInclusive<u32>> {
-    map(tuple((number, tag(":"), number)), |(s, _, e)| s..=e)(i)
+    map(tuple((number, tag(":"), number)), |(s, _, e)| {
+        if s <= e {
+            s..=e
+        } else {
+            e..=s
+        }
+    })(i)
 }
 
 // sequence-set    = (seq-number / seq-range) *("," sequence-set)
